@@ -5,6 +5,8 @@
 import IcontractModel.Lemmas.Instances
 import IcontractModel.Lemmas.Capture
 import IcontractModel.Spec.Trace
+import IcontractModel.Spec.DagHistorySnaps
+import IcontractModel.Lemmas.DagSnapLemmas
 namespace Icontract
 open Res List
 
@@ -70,3 +72,90 @@ theorem C08_post_kwargs_bind_old (ck : Checker) (kw : Kwargs) (old : List (Strin
   exact ⟨by rw [Kwargs.get?_set_ne _ _ _ _ (by decide), Kwargs.get?_set_self], Kwargs.get?_set_self _ _ _⟩
 
 end Icontract
+
+/-! ### snapshots along an arbitrary inheritance graph (the metaclass model, `Meta.lean`) -/
+
+namespace Icontract.Meta
+
+/-- **Snapshots are inherited together with postconditions, along an arbitrary inheritance graph, and duplicate names are
+rejected across the hierarchy.**  For every ACCEPTED history of class definitions (multiple inheritance, diamonds, gaps)
+whose functions carry their own `@snapshot`s, introspection of every member of every class shows exactly the snapshots
+of all its ancestors' versions (inherited first, as `specListAt` says) followed by its own - and their names are pairwise
+distinct; the postconditions they belong to are inherited the same way. -/
+theorem C08_dag_snapshots_inherited (names : List (Nat × String)) (ds : List ClassDefS) (hwf : HistWfS ds) (w : World)
+    (h : buildHistS { snapNames := names } 1 ds = .ok w) :
+    ∀ i (hi : i < ds.length) (key : String) (l : LevelS), (key, l) ∈ (ds[i]).members →
+      snapsOf w l.f = specListAt w (declsOfS ds).ownSnaps (ds.length + 1) (i + 1) key 0 ∧
+      ((snapsOf w l.f).map (snapName w)).Nodup ∧
+      postsOf w l.f = specListAt w (declsOfS ds).ownPosts (ds.length + 1) (i + 1) key 0 ∧
+      (snapsOf w l.f ≠ [] → postsOf w l.f ≠ []) := by
+  intro i hi key l hl
+  have st := buildHistS_observe names ds hwf w h i hi key l hl
+  refine ⟨st.snaps, ?_, st.posts, ?_⟩
+  · rw [st.snaps]; exact st.nd
+  · rw [st.snaps, st.posts]; exact st.sp
+
+/-- ... and, in the same accepted history, the preconditions are those of `C04_dag_effective_contracts`: the snapshots
+do not disturb the Liskov combination of the preconditions. -/
+theorem C08_dag_preconditions_unchanged (names : List (Nat × String)) (ds : List ClassDefS) (hwf : HistWfS ds)
+    (w : World) (h : buildHistS { snapNames := names } 1 ds = .ok w) :
+    ∀ i (hi : i < ds.length) (key : String) (l : LevelS), (key, l) ∈ (ds[i]).members →
+      preOf w l.f = (specPreAt w (declsOfS ds) (ds.length + 1) (i + 1) key 0).getD [] :=
+  fun i hi key l hl => (buildHistS_observe names ds hwf w h i hi key l hl).pre
+
+/-- non-vacuity: a chain with a gap (class 3 re-binds `m` without any snapshot, and brings a second member whose
+snapshot re-uses the name `a` - on another function, which is allowed), evaluated by the kernel -/
+example :
+    (match buildHistS { snapNames := [(500, "a"), (501, "b"), (502, "a"), (503, "c")] } 1
+        [⟨[], [("m", ⟨10, [1], [7], [500]⟩)]⟩, ⟨[1], [("m", ⟨12, [2], [8], [501]⟩)]⟩,
+         ⟨[2], [("m", ⟨14, [3], [], []⟩), ("n", ⟨15, [], [9], [502]⟩)]⟩, ⟨[3], [("m", ⟨16, [], [4], [503]⟩)]⟩] with
+     | .ok w => (snapsOf w 16, (snapsOf w 16).map (snapName w), postsOf w 16, snapsOf w 14, snapsOf w 15, snapsOf w 10)
+     | .error _ => ([], [], [], [], [], [])) =
+      ([500, 501, 503], ["a", "b", "c"], [7, 8, 4], [500, 501], [502], [500]) := by decide
+
+/-- ... and this history is well-formed, so the hypotheses of the theorem are satisfiable -/
+example : HistWfS [⟨[], [("m", ⟨10, [1], [7], [500]⟩)]⟩, ⟨[1], [("m", ⟨12, [2], [8], [501]⟩)]⟩,
+         ⟨[2], [("m", ⟨14, [3], [], []⟩), ("n", ⟨15, [], [9], [502]⟩)]⟩, ⟨[3], [("m", ⟨16, [], [4], [503]⟩)]⟩] := by
+  unfold HistWfS
+  decide
+
+/-- the diamond: snapshot `a` of class 1 reaches class 4 over both bases - the class statement is refused -/
+example :
+    (match buildHistS { snapNames := [(500, "a"), (501, "b"), (502, "a"), (503, "c")] } 1
+        [⟨[], [("m", ⟨10, [1], [7], [500]⟩)]⟩, ⟨[1], [("m", ⟨12, [2], [8], [501]⟩)]⟩, ⟨[1], []⟩,
+         ⟨[2, 3], [("m", ⟨14, [3], [5], [503]⟩)]⟩] with
+     | .ok _ => none
+     | .error e => some e) = some (.valueErrorDuplicateSnapshot "a") := by decide
+
+/-- ... although that history is well-formed too: the rejection is the metaclass's, not the hypothesis's -/
+example : HistWfS [⟨[], [("m", ⟨10, [1], [7], [500]⟩)]⟩, ⟨[1], [("m", ⟨12, [2], [8], [501]⟩)]⟩, ⟨[1], []⟩,
+         ⟨[2, 3], [("m", ⟨14, [3], [5], [503]⟩)]⟩] := by
+  unfold HistWfS
+  decide
+
+/-- `firstDuplicate` finds a name exactly when the names are not pairwise distinct -/
+theorem C08_firstDuplicate_iff_not_nodup (w : World) (snaps : List Nat) :
+    (∃ n, firstDuplicate w snaps = some n) ↔ ¬ (snaps.map (snapName w)).Nodup :=
+  firstDuplicate_some_iff w snaps
+
+/-- **Conversely, a member that would inherit / declare two snapshots of the same name is refused at the class
+definition.**  One step of the namespace pass: whenever the snapshots collected from the bases followed by the function's
+own ones contain a repeated NAME - and the weakening rule does not already reject the class - the collapse fails with
+`valueErrorDuplicateSnapshot` (so, by `C08_dag_snapshots_inherited`, acceptance and distinct names are equivalent at
+every member). -/
+theorem C08_duplicate_snapshot_names_rejected (w : World)
+    (key : String) (f : FnId) (bSnaps : List Nat) (have_ : Bool) (bPre bPosts : List Nat)
+    (hdup : ¬ ((bSnaps ++ (match w.checker? f with | some ck => w.heap.get ck.snaps | none => [])).map (snapName w)).Nodup)
+    (hnw : ¬ (bPre.isEmpty = true ∧ have_ = true ∧
+              (match w.checker? f with | some ck => w.heap.get ck.pre | none => []).isEmpty = false)) :
+    ∃ n, decorateOne w key f true (have_, bPre, bSnaps, bPosts) = .error (.valueErrorDuplicateSnapshot n) :=
+  decorateOne_duplicate w key f have_ bPre bSnaps bPosts hdup hnw
+
+/-- ... and the other direction of that step: an accepted member's collected and own snapshots have pairwise distinct names -/
+theorem C08_accepted_member_has_distinct_snapshot_names (w w' : World) (key : String) (f : FnId) (have_ : Bool)
+    (bPre bSnaps bPosts : List Nat)
+    (h : decorateOne w key f true (have_, bPre, bSnaps, bPosts) = .ok w') :
+    ((bSnaps ++ (match w.checker? f with | some ck => w.heap.get ck.snaps | none => [])).map (snapName w)).Nodup :=
+  decorateOne_nodup w w' key f have_ bPre bSnaps bPosts h
+
+end Icontract.Meta
